@@ -61,7 +61,6 @@ Proof.
   pose proof (of_int63_equiv (Uint63.of_Z z)) as E.
   rewrite Uint63.of_Z_spec in E.
   rewrite Z.mod_small in E by (change Uint63.wB with (2 ^ 63); lia).
-  change (of_int63 (Uint63.of_Z z)) with (of_uint63 (Uint63.of_Z z)) in E.
   rewrite E.
   pose proof (binary_normalize_correct prec emax Hprec Hmax mode_NE z 0 false) as C.
   cbv zeta in C.
@@ -92,3 +91,111 @@ Lemma f1e6_val : FR f1e6 = 1000000%R. Proof. unfold f1e6. rewrite of_Z_val by (c
 Lemma f1e6_fin : fin f1e6. Proof. apply of_Z_fin. cbn; lia. Qed.
 Lemma ftwo_val : FR ftwo = 2%R. Proof. unfold ftwo. rewrite of_Z_val by (cbn; lia). reflexivity. Qed.
 Lemma ftwo_fin : fin ftwo. Proof. apply of_Z_fin. cbn; lia. Qed.
+
+(* ------------------------------------------------------------------------- *)
+(* arithmetic and comparisons on finite values *)
+
+Lemma no_ovf : forall x : R, (Rabs x < bpow radix2 64)%R -> Rlt_bool (Rabs x) (bpow radix2 emax) = true.
+Proof. intros x H. apply Rlt_bool_true. now apply bpow_emax_big. Qed.
+
+Lemma fsub_spec : forall x y, fin x -> fin y ->
+  (Rabs (RN (FR x - FR y)) < bpow radix2 64)%R ->
+  fin (x - y)%float /\ FR (x - y)%float = RN (FR x - FR y).
+Proof.
+  intros x y Fx Fy B. rewrite sub_equiv.
+  pose proof (Bminus_correct prec emax Hprec Hmax mode_NE (Prim2B x) (Prim2B y) Fx Fy) as C.
+  simpl round_mode in C. rewrite (no_ovf _ B) in C. destruct C as (C1 & C2 & _). now split.
+Qed.
+
+Lemma fadd_spec : forall x y, fin x -> fin y ->
+  (Rabs (RN (FR x + FR y)) < bpow radix2 64)%R ->
+  fin (x + y)%float /\ FR (x + y)%float = RN (FR x + FR y).
+Proof.
+  intros x y Fx Fy B. rewrite add_equiv.
+  pose proof (Bplus_correct prec emax Hprec Hmax mode_NE (Prim2B x) (Prim2B y) Fx Fy) as C.
+  simpl round_mode in C. rewrite (no_ovf _ B) in C. destruct C as (C1 & C2 & _). now split.
+Qed.
+
+Lemma fmul_spec : forall x y, fin x -> fin y ->
+  (Rabs (RN (FR x * FR y)) < bpow radix2 64)%R ->
+  fin (x * y)%float /\ FR (x * y)%float = RN (FR x * FR y).
+Proof.
+  intros x y Fx Fy B. rewrite mul_equiv.
+  pose proof (Bmult_correct prec emax Hprec Hmax mode_NE (Prim2B x) (Prim2B y)) as C.
+  simpl round_mode in C. rewrite (no_ovf _ B) in C. destruct C as (C1 & C2 & _).
+  rewrite Fx, Fy in C2. now split.
+Qed.
+
+Lemma fdiv_spec : forall x y, fin x -> fin y -> FR y <> 0%R ->
+  (Rabs (RN (FR x / FR y)) < bpow radix2 64)%R ->
+  fin (x / y)%float /\ FR (x / y)%float = RN (FR x / FR y).
+Proof.
+  intros x y Fx Fy Ny B. rewrite div_equiv.
+  pose proof (Bdiv_correct prec emax Hprec Hmax mode_NE (Prim2B x) (Prim2B y) Ny) as C.
+  simpl round_mode in C. rewrite (no_ovf _ B) in C. destruct C as (C1 & C2 & _).
+  rewrite Fx in C2. now split.
+Qed.
+
+Lemma fabs_spec : forall x, fin x -> fin (abs x) /\ FR (abs x) = Rabs (FR x).
+Proof.
+  intros x Fx. rewrite abs_equiv, is_finite_Babs, B2R_Babs. now split.
+Qed.
+
+Lemma fopp_spec : forall x, fin x -> fin (- x)%float /\ FR (- x)%float = (- FR x)%R.
+Proof. intros x Fx. rewrite opp_equiv, is_finite_Bopp, B2R_Bopp. now split. Qed.
+
+Lemma fleb_spec : forall x y, fin x -> fin y -> (x <=? y)%float = Rle_bool (FR x) (FR y).
+Proof. intros x y Fx Fy. rewrite leb_equiv. now apply Bleb_correct. Qed.
+Lemma fltb_spec : forall x y, fin x -> fin y -> (x <? y)%float = Rlt_bool (FR x) (FR y).
+Proof. intros x y Fx Fy. rewrite ltb_equiv. now apply Bltb_correct. Qed.
+Lemma feqb_spec : forall x y, fin x -> fin y -> (x =? y)%float = Req_bool (FR x) (FR y).
+Proof. intros x y Fx Fy. rewrite eqb_equiv. now apply Beqb_correct. Qed.
+
+Lemma zero_fin : fin zero. Proof. reflexivity. Qed.
+Lemma zero_val : FR zero = 0%R. Proof. reflexivity. Qed.
+Lemma fhalf_fin : fin fhalf. Proof. reflexivity. Qed.
+Lemma fhalf_val : FR fhalf = (/ 2)%R.
+Proof. unfold fhalf. cbv [Prim2B]. rewrite B2R_SF2B. vm_compute Prim2SF. unfold SF2R, F2R. simpl. lra. Qed.
+
+(* ------------------------------------------------------------------------- *)
+(* int_of_float is truncation of the real value *)
+
+Lemma int_of_float_spec : forall f, fin f -> int_of_float f = Ok (Ztrunc (FR f)).
+Proof.
+  intros f Ff. unfold int_of_float. rewrite <- B2SF_Prim2B.
+  destruct (Prim2B f) as [s|s| |s m e H]; try discriminate; simpl B2SF; cbv iota.
+  - simpl. now rewrite Ztrunc_IZR.
+  - f_equal. simpl B2R.
+    assert (K : Ztrunc (F2R (Float radix2 (Zpos m) e)) =
+                if 0 <=? e then Z.shiftl (Zpos m) e else Z.shiftr (Zpos m) (- e)).
+    { destruct (Z.leb_spec 0 e) as [He|He].
+      - rewrite Z.shiftl_mul_pow2 by lia. unfold F2R. simpl Fnum. simpl Fexp.
+        rewrite <- IZR_Zpower by lia. rewrite <- mult_IZR. apply Ztrunc_IZR.
+      - rewrite Z.shiftr_div_pow2 by lia. unfold F2R. simpl Fnum. simpl Fexp.
+        rewrite Ztrunc_floor.
+        + replace e with (- (- e)) at 1 by lia. rewrite bpow_opp. rewrite <- IZR_Zpower by lia.
+          change (Zpower radix2 (- e)) with (2 ^ (- e)).
+          apply Zfloor_div. apply Z.pow_nonzero; lia.
+        + apply Rmult_le_pos; [apply IZR_le; lia | apply bpow_ge_0]. }
+    destruct s; simpl cond_Zopp.
+    + change (Zneg m) with (- Zpos m). rewrite F2R_Zopp, Ztrunc_opp, K. reflexivity.
+    + symmetry; exact K.
+Qed.
+
+Lemma Ztrunc_bounds : forall x : R, (Rabs (IZR (Ztrunc x)) <= Rabs x)%R /\ (Rabs (x - IZR (Ztrunc x)) < 1)%R
+   /\ (0 <= x -> 0 <= x - IZR (Ztrunc x))%R /\ (x <= 0 -> x - IZR (Ztrunc x) <= 0)%R.
+Proof.
+  intros x. destruct (Rle_dec 0 x) as [H|H].
+  - rewrite Ztrunc_floor by exact H.
+    pose proof (Zfloor_lb x). pose proof (Zfloor_ub x).
+    assert (0 <= IZR (Zfloor x))%R by (apply IZR_le, Zfloor_lub; simpl; exact H).
+    repeat split; intros; try (rewrite !Rabs_pos_eq by lra); try lra.
+    rewrite Rabs_pos_eq by lra. lra.
+    assert (x = 0)%R by lra. subst x. rewrite Zfloor_IZR. simpl. lra.
+  - rewrite Ztrunc_ceil by lra.
+    pose proof (Zceil_lb x). pose proof (Zceil_ub x).
+    assert (IZR (Zceil x) <= 0)%R by (apply IZR_le, Zceil_glb; simpl; lra).
+    repeat split; intros; try lra.
+    + rewrite !Rabs_left1 by lra. lra.
+    + rewrite Rabs_left1 by lra. lra.
+Qed.
